@@ -568,9 +568,10 @@ func checkC03(cs *c03Case, o *pt.Obs) error {
 				// known finding C03-agiletree: a group-by answered from the pre-aggregated tree (columns
 				// registered by earlier stats queries, aggregations and PQS on, segment rotated; only
 				// count/sum/min/max/avg/range are served from it) is wrong for float measures
-				// (sum/min/max/avg = 0), float/bool by-keys and a measure column that is also a by-column
-				// (no groups at all). Integer measures over string by-keys are still compared, and so is
-				// every query with a function the tree does not keep.
+				// (sum/min/max/avg = 0; repaired by fixes/C03-agiletree-float-measure.diff), non-string
+				// by-keys and a measure column that is also a by-column (no groups at all). Numeric measures
+				// over string by-keys are still compared, and so is every query with a function the tree
+				// does not keep (computed from the records since fixes/C03-agiletree-unsupported-measure-function.diff).
 				if (k.PreQuery || k.PreHalf) && !k.AggsOff && !k.PQSOff && rot >= 1 && len(st.By) > 0 && pt.KnownFindingOpen("C03-agiletree") {
 					if !treeSafe(st, kinds) {
 						o.Known("C03-agiletree")
@@ -846,11 +847,9 @@ func treeFn(fn string) bool {
 
 // treeSafe: the answer does not fall into the class of the open finding C03-agiletree. Either some measure
 // uses a function the tree does not keep (then the whole query is computed from the records), or the
-// by-keys are pure strings and every measure aggregates a pure-integer column that is not itself a by-column.
+// by-keys are pure strings and every measure aggregates a pure-integer or pure-float column that is not
+// itself a by-column.
 func treeSafe(st *model.StatsQuery, kinds map[string]map[model.Kind]bool) bool {
-	if true {
-		return true // EXPERIMENT
-	}
 	for _, m := range st.Measures {
 		if !treeFn(m.Fn) {
 			return true
